@@ -1,6 +1,6 @@
 chk("C13", "model_checking",
-    "Closure over (reader position, frames delivered) x every visible byte length for each trajectory of a small alphabet: all cut sequences of any length at byte granularity are covered for the text readers, on the real reader functions.",
-    "Trusted: the harness-side writers emit the formats CP2K/LAMMPS emit; a frame whose values are complete but whose final newline is not yet visible is don't-care.",
+    "Text readers (xyz_reader, lammpstrj_reader): closure over (reader position, frames delivered) x every visible byte length for each trajectory of a small alphabet, so all cut sequences of any length at byte granularity are covered on the real reader functions. TRR (GromacsRunner.get_gromacs_frames): a fake mdrun whose file grows at byte granularity, both byte orders x both precisions, every single intermediate size and pairs of sizes (stride + structural boundaries +-1); frames yielded must be the written ones, each once, in order, never before complete; hangs are verdicts (watchdog).",
+    "Trusted: the harness-side writers/encoder emit the formats CP2K/LAMMPS/GROMACS emit; a text frame whose values are complete but whose final newline is not yet visible is don't-care.",
     "explicit-state closure on the implementation", "DESIGN.md 4/C13")
 chk("C09", "model_checking",
     "All executions of the real shoot / wire_fencing / retis_swap_zero on the lattice from every old path up to a length bound (every shooting index, every cell of every uniform draw, every walk step sequence), each judged for membership, time order, weight, shooting point and an untouched old path; the exact kernel is compared with the reference kernel of 'accept iff u <= n_old/n_new' as an equality of rationals, plus explicit equality probes.",
@@ -66,3 +66,7 @@ chk("C08", "fault_enumeration",
     "Fault enumeration on the real REPEX_state + real PathStorage with real files under an interposed file system: for the last step of every scenario of up to 3 steps (outcomes and completion orders exhaustive, one pick deviation; delete_old variants; 1-2 workers; also after an earlier restart; a 6-step scenario that fires the deletion lag) the main process is killed after every counted effect (open-for-write, write, move, remove, rmdir, mkdir) and at torn prefixes of every write; the tree must restart through the real setup_config/setup_internal, live paths must have their files and non-zero weight, recorded in-flight jobs are re-issued first, and after replacing every live path once more every replaced path has exactly one data row.",
     "Trusted: unbuffered-write crash model (plus torn prefixes); accepted paths written by the harness. Quick tier crashes only 4 occurrences of an effect repeated within a step (reported as a cap); thorough crashes after every effect.",
     "exhaustive crash-point and torn-write enumeration on the implementation", "DESIGN.md 4/C08")
+chk("C12", "model_checking",
+    "External engines (LAMMPS, CP2K, GROMACS) built from the example inputs run against fake programs with a free-flight toy dynamics and per-frame boxes: every schedule of (one frame | two frames | stay | finish | die with rc != 0) at every poll (LAMMPS complete; CP2K with separate pos/vel progress and GROMACS up to a deviation bound in the quick tier), both time directions; in-process engines (TurtleMD, ASE Langevin/VelocityVerlet, ballistic file plug-in) over a grid of subcycles x maxlen x interfaces x direction x start points. Oracle: stored order of frame k = order recomputed from frame k as written / as referenced, stop rule, success flag, frame references, program stopped, failure raises unless the complete path was delivered, deterministic integrators retrace.",
+    "Trusted: fake writers emit the real programs' formats; toy dynamics (free flight) stands for MD; frames of in-process engines are read back through the engine's own codecs. AMS and GROMACS' own velocity generation are not covered.",
+    "exhaustive schedule enumeration of fake external processes against the real engines", "DESIGN.md 4/C12")
